@@ -2,6 +2,7 @@
 from pysx.lib import memo_call
 from ural.normalize_url import normalize_url
 from ural.infer_redirection import infer_redirection
+from spec import url as U
 
 
 def _n(u, quoted, platform_aware):
@@ -31,4 +32,6 @@ def redirection_is_a_pre_step(u, quoted):
         b = normalize_url(t, quoted=quoted, infer_redirection=False)
     except Exception:
         return True
+    if t != u and U.parse(t, "http") is None:
+        return True           # the inferred target is not a parseable url: which of the two unparseable-url rules applies is not settled by the property
     return a == b
